@@ -302,6 +302,7 @@ class Interp:
         self.term_mode = 0        # >0: inside a symbolic comprehension body, no forking allowed
         self.cur_exc = []
         self.map_loop_mode = False
+        self.drain_may_raise = False
         self.loop_counter = {}    # function qualname -> next loop ordinal
         self.frames = []
         self.ghost = {}
@@ -387,6 +388,12 @@ class Interp:
 
     def emit(self, ev):
         self.path.events.append(ev)
+        if ev.kind == 'Drain' and self.drain_may_raise:
+            # fully consuming a generator / stream runs arbitrary upstream code: it may raise at any point
+            if self.decide(2, lambda i: True) == 1:
+                e = self.lib.symbolic_exception(self, 'drain_exc')
+                self.path.events.append(Ev('DrainRaises', src=ev.src, exc=e))
+                raise PyExc(e)
         return ev
 
     # ---------------------------------------------------------------- value helpers
